@@ -244,6 +244,9 @@ def gr_specs(draw, tier):
     b["mesh"] = draw(st.lists(st.integers(1, 3), min_size=3, max_size=3))
     b["explicit_delta"] = draw(st.booleans())
     b["gc"] = draw(st.booleans())
+    # volume changed isotropically (closed form available), or by straining one axis only: the strained cells then have LOWER symmetry than
+    # the reference, and only the agreement between symmetry-reduced and full meshes is asserted
+    b["strain"] = draw(st.sampled_from(["iso", "iso", "axis0", "axis2"]))
     return b
 
 
@@ -267,10 +270,20 @@ def run_gruneisen(spec):
     except Exception as e:
         return Out(nontrivial=False, rejected=True, classes=["ctor_rejected:" + type(e).__name__])
     fc0 = springs_fc(ph0.supercell)
+    strain = spec.get("strain", "iso")
     for scale in (1.0, 1 + a, 1 - b):
-        cc = PhonopyAtoms(symbols=cell.symbols, cell=cell.cell * scale ** (1 / 3), scaled_positions=cell.scaled_positions, masses=cell.masses)
-        ph = Phonopy(cc, supercell_matrix=S, primitive_matrix="auto", log_level=0)
-        ph.force_constants = fc0 * scale ** (-2 * g)
+        if strain == "iso":
+            L = cell.cell * scale ** (1 / 3)
+        else:
+            L = cell.cell.copy()
+            L[:, int(strain[-1])] *= scale  # Cartesian component along one axis: volume x scale, shape changed
+        cc = PhonopyAtoms(symbols=cell.symbols, cell=L, scaled_positions=cell.scaled_positions, masses=cell.masses)
+        try:
+            ph = Phonopy(cc, supercell_matrix=S, primitive_matrix=ph0.primitive_matrix, log_level=0)
+        except Exception as e:
+            return Out(nontrivial=False, rejected=True, classes=["ctor_rejected:" + type(e).__name__])
+        # isotropic: exactly uniform scaling; one axis: the spring model re-evaluated on the strained geometry (symmetry of the strained cell)
+        ph.force_constants = fc0 * scale ** (-2 * g) if strain == "iso" else springs_fc(ph.supercell)
         phs.append(ph)
     delta = (a + b) if spec["explicit_delta"] else None
     gr = PhonopyGruneisen(phs[0], phs[1], phs[2], delta_strain=delta)
@@ -302,6 +315,19 @@ def run_gruneisen(spec):
                     start = k
         return okm
 
+    if strain != "iso":
+        def moments_(w_, f_, g_):
+            okk = (f_ > 1e-2 * fmax) & clean_modes(f_)
+            W = np.repeat(w_[:, None], f_.shape[1], axis=1)[okk]
+            return np.array([W.sum(), (W * f_[okk]).sum(), (W * g_[okk]).sum(), (W * g_[okk] ** 2).sum(), (W * g_[okk] * f_[okk] ** 2).sum()]) / w_.sum()
+
+        ma, mb = moments_(*res[True]), moments_(*res[False])
+        e2 = np.abs(ma - mb).max() / max(1.0, np.abs(mb).max())
+        if e2 > 1e-6:
+            return Out(ok=False, info={"err": e2}, msg="volume changed by straining %s only: weighted moments of (omega, gamma) differ between symmetry-reduced and "
+                       "full mesh: %.3e (%d vs %d q-points)" % (strain, e2, len(res[True][0]), len(res[False][0])))
+        return Out(ok=True, nontrivial=len(res[True][0]) < len(res[False][0]), classes=["strain:" + strain, "reduced" if len(res[True][0]) < len(res[False][0]) else "noreduction"],
+                   info={"err": e2})
     ok = (f > 1e-2 * fmax) & clean_modes(f)
     if not ok.any():
         return Out(nontrivial=False, classes=["no_modes"])
